@@ -349,13 +349,24 @@ def check_procs(case, ctx):
 
             def run(k):
                 from geomdl import operations
+                from geomdl import tessellate as _tsl, freeform as _ff
                 mine = [G.build(sd) for sd in sds]
+                # the caller's own sub-objects: a tessellation component and a trim curve it keeps references to
+                tsl_ = _tsl.TrimTessellate()
+                (ua_, ub_), (va_, vb_) = G.domains_of(mine[0])
+                trim_ = _ff.Freeform()
+                trim_.evaluate(points=[[ua_ + x_ * (ub_ - ua_), va_ + y_ * (vb_ - va_)] for x_, y_ in
+                                       ((0.3, 0.3), (0.7, 0.3), (0.7, 0.7), (0.3, 0.7), (0.3, 0.3))])
+                mine[0].trims = [trim_]
+                mine[0].tessellator = tsl_
                 ms = multi.SurfaceContainer(*mine)
                 ms.sample_size = n
                 kw = {} if k == 1 else {'num_procs': k}
                 ms.tessellate(**kw)
                 out = [[(v.id, list(v.uv), list(v.data)) for v in ms.vertices], [list(f.data) for f in ms.faces],
                        [[list(p) for p in e.evalpts] for e in ms]]
+                # the component the caller installed holds the mesh of its surface; the objects it handed over are still in place
+                out.append([len(tsl_.faces), mine[0].tessellator is tsl_, mine[0].trims[0] is trim_])
                 if edit:
                     # the surfaces the caller put into the container are still the container's surfaces
                     operations.translate(mine[0], shift, inplace=True)
